@@ -40,11 +40,11 @@ CHECKS = {
     'C09': ("Rewrite.tla invariant Truth checked by TLC; every scenario of family fwd replayed through the real listener/TLS/server chain",
             "Protocol x PreserveHost x Host x client X-Forwarded-For/-Host/-Proto/Forwarded lines enumerated exhaustively; X-Forwarded-For must be the client's list "
             "plus the TCP peer, X-Forwarded-Host the client's Host, X-Forwarded-Proto https, client Forwarded/XFH/XFP never passed on.",
-            "Clients connect from loopback (peer 127.0.0.1); :scheme https on HTTP/2."),
+            "Clients connect from loopback (peer 127.0.0.1); HTTP/2 requests with :scheme http on the TLS connection are part of the family; HTTP/1.1 scenarios are also replayed through the real flag wiring."),
     'C15': ("Rewrite.tla invariant ProbeXor checked by TLC; every scenario of family probe replayed through the real stack",
             "User-Agent variants (absent, empty, prefix, infix, suffix, case, leading space), probe text in other places, methods, paths, both protocols and probe "
             "support on/off are enumerated; each request is answered locally with 200 OK XOR forwarded exactly once, as the prefix predicate dictates.",
-            "Two disagreeing User-Agent lines are a dont-care class (logged). The flag wiring is replicated by the harness."),
+            "Two User-Agent lines are judged by the first line. HTTP/1.1 scenarios are also replayed through the real flag wiring (flag.Parse -> defaultReverseProxyHTTPHandler -> defaultProxyServer)."),
     'C03': ("H2Fingerprint.tla: capture state machine + Marshal refine the ideal FP(history, N) (TLC, all histories up to MaxHist); the history-free "
             "state graph is edge-covered by paths replayed with a raw-frame HTTP/2 client over TLS against the real proxy, one stack per limit N",
             "TLC decides latest/first/all/latest semantics, truncation at every limit class and the print format on the specification; the replay ties the "
@@ -71,14 +71,15 @@ CHECKS = {
             "Harness serializer trusted; random bit flips are sampled exploration; header-block validity is C13's."),
     'C10': ("ProxyServer.tla (connection lifecycle with client aborts anywhere and panics in user callbacks; PanicConfined under fairness) checked by TLC; "
             "panics injected into GetCertificate / ConnState(h2) / ConnState(h1) against the real server in a child process; abusive client scripts "
-            "(garbage, plain HTTP, aborts at random byte offsets, stalls) in-process with their hook traces validated by TLC",
+            "(garbage, plain HTTP, aborts at random byte offsets, resets, stalls, server-side I/O errors at the k-th Read/Write) in-process with their hook traces validated by TLC; "
+            "the frame space of H2Frame.tla (TLC graph, serialized by the C19 driver) and stall scripts under a read timeout thrown at the stack in a child process with control requests in between",
             "TLC explores every interleaving of two connections with faults; the real process must survive each injected panic and keep serving both protocols, "
-            "and every abusive run must be a behaviour of the specification.",
-            "%s I/O-error injection per operation index is not built; client-side aborts stand in." % LIFE),
+            "every abusive run must be a behaviour of the specification, and no single connection out of the modelled frame space (quick: stratified sample, thorough: all ~28k x fresh/open-stream) may stop the child from serving others.",
+            "%s Errors of the backend connection are not injected; purely random byte strings are not a TLA+ notion (modelled malformation families are exhaustive)." % LIFE),
     'C11': ("ProxyServer.tla, EventuallyReleased under weak fairness checked by TLC; lifecycle traces of the real proxyserver (hooks + harness-owned listener) "
             "validated by TLC, each trace ending in 'every accepted connection exited, closed and counted'; TLC's hand-off race forced with a blocking hook; timeout scenario",
             "Release of every accepted connection is decided for all interleavings on the model and demanded at the end of every recorded scenario; stalled handshakes and "
-            "idle HTTP/1.1 and HTTP/2 connections must be cut by the proxy itself while the clients keep their side open.",
+            "idle HTTP/1.1 and HTTP/2 connections (also after a client-cancelled stream) must be cut by the proxy itself while the clients keep their side open; clients leave in every manner (close, TCP reset, half-sent and unread requests) at every stage.",
             LIFE),
     'C16': ("ProxyServer.tla invariants CountedOnce / TrueLabels / FailedMeansZero over all six client kinds checked by TLC; recorded traces validated with the counted hook "
             "attributed per connection; Prometheus registry compared with the attributed bag and the number of accepted connections",
@@ -86,10 +87,10 @@ CHECKS = {
             "registry must equal the per-connection increments the trace specification accepted.",
             LIFE),
     'C17': ("ProxyServer.tla, ShutdownCompletes under fairness + NotServedAfterCancel / ServeReturnsClosed / ReturnedMeansDrained checked by TLC; states at the instant of cancel "
-            "constructed on the real server (none, early, idle, handshaking, mixed, repeated, gated hand-off race) and replayed; traces validated",
+            "constructed on the real server (none, early, idle, handshaking, mixed, repeated, gated hand-off race, HTTP/1.1 exchange in flight with late clients of every protocol during the drain) and replayed; traces validated",
             "Shutdown is decided for cancellation in every reachable model state; on the code each constructed state is cancelled and return value, listener state, late "
             "connections, and latency class are compared with the specification.",
-            LIFE + " An HTTP/1.1 exchange held across cancel is not constructed in the quick tier."),
+            LIFE + " The exchange held across cancel uses a handler that ignores its context (the reverse proxy itself aborts in-flight exchanges at cancel)."),
     'C07': ("H2FPConc.tla (writer = capture with two-step HEADERS, reader = four-read Marshal, one lock): Consistent + Exclusion checked by TLC for all interleavings, and the "
             "lock-free variant shown to violate Consistent; TLC's interleavings forced on the real code with blocking verifhook points (reader parked at every point of Marshal, "
             "serve goroutine parked between its two writes); forwarded fingerprints must lie in the snapshot set TLC computed; race-detector run as corroboration",
@@ -100,7 +101,7 @@ CHECKS = {
             "hellos and HTTP/2 preambles against the real stack, expected per-connection fingerprints evaluated by TLC from what each client really sent",
             "The design is explored for all interleavings of 5 connections over 3 reusable slots; on the code every request of dozens of concurrent connections (keep-alive and "
             "multiplexed) must carry exactly its own connection's three values, and any foreign value is attributed to the connection it belongs to.",
-            "Single peer address (loopback); schedules are random (seeded), not TLC-generated."),
+            "Single peer address (loopback); random (seeded) waves plus gated waves in which all connections are held at one hook point of serveConn until all have arrived, each point in turn."),
     'C13': ("H2Conn.tla (reaction table of processFrame and callees in code order; handler legality, GOAWAY coverage, no start after a connection error) checked by TLC; "
             "a seeded sample of the live graph edges covered by paths replayed with a raw-frame client over TLS (PING/ACK barrier per frame, gated backend as handler completion)",
             "TLC explores all frame sequences to the depth bound over a rich alphabet; on the real server every replayed step's reactions (RST_STREAM code, GOAWAY code, SETTINGS ack, "
@@ -118,7 +119,7 @@ CHECKS = {
             "TLC decides send safety incl. negative windows, overflow errors, the conservation law, the batching bound and agreement with the peer's ledger on the model; on the code "
             "every DATA frame of every recorded connection must fit the ledger, queued data must drain, provoked overflows/overruns must draw FLOW_CONTROL_ERROR and honest peers none, "
             "returned credit may never exceed bytes received and must be within 4096 of them at quiescence.",
-            "Client ledger = upper bound (increases at send, decreases at ack); the client transport is not driven; D16 (over-returned connection credit after a client RST mid-body) is reported as KNOWN-FINDING."),
+            "Client ledger = upper bound (increases at send, decreases at ack); the client transport is not driven; receiver scenarios include a handler that closed the body (discarded, heavily padded DATA must be refunded at once); D16 (over-returned connection credit after a client RST mid-body) is reported as KNOWN-FINDING."),
     'C08': ("Rewrite.tla (end-to-end headers kept, hop-by-hop removed, Host rule, request-target identity) and Relay.tla (FIFO relay with free re-framing, conservation + liveness) "
             "checked by TLC; Rewrite scenarios replayed through the real stack; real end-to-end runs with keyed body bytes recorded at both ends and validated by TLC (Trace_Relay.tla)",
             "Header/URL/Host rules are decided for all scenarios in the bound and replayed one by one; for bodies every piece received by the backend or the client must be the next "
